@@ -57,6 +57,10 @@ def constAgg (w : Vec α) : Mat α → Except Err (Vec α) :=
 def sumAgg : Mat α → Except Err (Vec α) :=
   fun J => .ok (combine (ncols J) J (onesV J.length))
 
+/-- `Mean()` : `_MeanWeighting` gives every row the weight `1/m` (`m` = number of rows) -/
+def meanAgg [Div α] [NatCast α] : Mat α → Except Err (Vec α) :=
+  fun J => .ok (combine (ncols J) J (List.replicate J.length (1 / (J.length : α))))
+
 /-- what `torch.autograd.backward(outs, grad_tensors = w split per tensor, inputs = ins)` adds to the
     `.grad` of input `i` -/
 def autogradDeposit (E : Engine α) (outs : List Key) (w : Vec α) (i : Key) : Vec α :=
